@@ -708,6 +708,175 @@ def stream_slice_compose(ctx):
     return cases
 
 
+PHI = ["exp", "log", "sigmoid", "sqrt", "tanh", "log1p", "atanh"]
+
+
+def _full_table(ctx, recipe, ins):
+    """Lean `denote` table of `recipe` over the integer inputs `ins` as a float ndarray ins-sizes + event shape."""
+    syn = syntax(recipe)
+    wire = ser.to_wire(syn, ext=True)
+    tab = ser.parse_table(ctx.driver.ask1(f"C01 denote {sx(wire)} {sx(ser.ins_wire(ins))} ()"))
+    if tab is None or any(m is None for m in tab):
+        return None
+    shape = tab[0][0]
+    arr = np.array([[float(x) for x in cell[1]] for cell in tab], dtype=np.float64)
+    return arr.reshape(tuple(s_ for _, s_ in ins) + tuple(shape))
+
+
+def run_phi(ctx, n):
+    """Transcendental ops as uninterpreted scalar functions (Props/C01/Phi.lean): the exact argument table comes
+    from Lean `denote`, numpy's scalar function is applied to it, and the surrounding structure (a reduction over
+    named inputs, a broadcasting binary op, or nothing) is evaluated on that table; the eager result must agree
+    (same inputs, same shape, values up to 1e-12 relative: only the summation order may differ)."""
+    rng = ctx.rng
+    for _ in range(n):
+        c = gen_ctx(rng)
+        kind = rng.choice(["real", "real", ("array", (2,)), ("array", (2, 3))])
+        a, fa = gen_terms.gen_expr(rng, c, rng.choice([0, 1, 2]), kind, ext=True)
+        f = rng.choice(PHI)
+        form = rng.choice(["root", "reduce", "binary"])
+        if in_open_region(ctx, a):
+            continue
+        try:
+            syn_a = syntax(a)
+            ser.to_wire(syn_a, ext=True)
+        except Exception:
+            ctx.count("phi:arg-beyond-model")
+            continue
+        if any(v.dtype == "real" or v.shape for v in syn_a.inputs.values()):
+            continue
+        ins_a = [(k, int(v.size)) for k, v in syn_a.inputs.items()]
+        phi = ("unaryf", f, a)
+        b = None
+        if form == "reduce" and ins_a:
+            op = rng.choice(["add", "max", "min"])
+            rv = [k for k, _ in ins_a if rng.random() < 0.6] or [ins_a[0][0]]
+            recipe = ("reduce", op, phi, tuple(rv), ())
+        elif form == "binary":
+            op = rng.choice(["add", "mul", "max", "sub"])
+            b, _ = gen_terms.gen_expr(rng, c, 1, kind if rng.random() < 0.6 else "real", ext=True)
+            if in_open_region(ctx, b):
+                continue
+            recipe = ("binary", op, phi, b) if rng.random() < 0.5 else ("binary", op, b, phi)
+        else:
+            form, recipe = "root", phi
+        ins = list(ins_a)
+        try:
+            if b is not None:
+                syn_b = syntax(b)
+                if any(v.dtype == "real" or v.shape for v in syn_b.inputs.values()):
+                    continue
+                for k, v in syn_b.inputs.items():
+                    if k not in dict(ins):
+                        ins.append((k, int(v.size)))
+            ins = sorted(ins)
+            ta = _full_table(ctx, a, ins)
+            tb = _full_table(ctx, b, ins) if b is not None else None
+        except Exception:
+            ctx.count("phi:arg-beyond-model")
+            continue
+        if ta is None or (b is not None and tb is None):
+            ctx.count("phi:spec-undefined")
+            continue
+        nb = len(ins)
+        with np.errstate(all="ignore"):
+            want = np.asarray(getattr(ops, f)(ta), dtype=np.float64)
+            out_ins = ins
+            if form == "reduce":
+                axes = tuple(i for i, (k, _) in enumerate(ins) if k in rv)
+                want = {"add": np.sum, "max": np.max, "min": np.min}[op](want, axis=axes)
+                out_ins = [p for p in ins if p[0] not in rv]
+            elif form == "binary":
+                ev_a, ev_b = want.shape[nb:], tb.shape[nb:]
+                rk = max(len(ev_a), len(ev_b))
+                wa = want.reshape(want.shape[:nb] + (1,) * (rk - len(ev_a)) + ev_a)
+                wb = tb.reshape(tb.shape[:nb] + (1,) * (rk - len(ev_b)) + ev_b)
+                x, y = (wa, wb) if recipe[2] is phi else (wb, wa)
+                try:
+                    want = NPBIN[op](x, y)
+                except ValueError:
+                    ctx.count("phi:not-broadcastable")
+                    continue
+        st, val = evaluate(recipe)
+        ctx.count(f"phi:form:{form}")
+        ctx.count(f"phi:fn:{f}")
+        if st != "value":
+            ctx.count(f"phi:impl-declined:{val.split(':')[0]}")
+            ctx.case()
+            continue
+        if not isinstance(val, (Tensor, Number)):
+            ctx.count("phi:impl-lazy")
+            ctx.case()
+            continue
+        if set(val.inputs) - set(k for k, _ in out_ins):
+            ctx.fail("input", "C01.result-has-foreign-input", witness=gen_terms.describe(recipe),
+                     expected=str(out_ins), got=str(list(val.inputs)), python=replay_python(recipe))
+            continue
+        try:
+            got = futil.table(val, out_ins)
+        except (KeyError, ValueError) as e:
+            ctx.fail("input", "C01.result-inputs", witness=gen_terms.describe(recipe), got=str(e)[:300],
+                     expected=str(out_ins), python=replay_python(recipe))
+            continue
+        got = np.asarray(got, dtype=np.float64)
+        ok = got.shape == want.shape and np.allclose(got, want, rtol=1e-12, atol=1e-12, equal_nan=True)
+        if not ok:
+            ctx.fail("input", "C01.eager-ne-denote-phi", witness=gen_terms.describe(recipe),
+                     expected=f"{f} applied by numpy to Lean's argument table, then {form}: {want.tolist()!r}"[:600],
+                     got=str(got.tolist())[:600], python=replay_python(recipe))
+            continue
+        if np.array_equal(got, want, equal_nan=True):
+            ctx.count("phi:bitwise-equal")
+        ctx.case(sample={"stream": "phi", "expr": gen_terms.python_of(recipe)[:300]},
+                 nontrivial_key=repr(gen_terms.describe(recipe)) if isinstance(val, Tensor) and val.inputs else None)
+
+
+def run_independent_echo(ctx, cases):
+    """Three-way for Independent: the NT model `pevalIndependent` (Props/C01/Independent.lean: independent_sem) vs
+    Lean `denote` vs the eager result after binding the real input."""
+    from fv.common import Q
+    for c in cases:
+        if c.recipe[0] != "independent" or not hasattr(c, "wire") or getattr(c, "syn", None) is None:
+            continue
+        _, fn, rv, bv, dv = c.recipe
+        try:
+            wfn = ser.to_wire(syntax(fn), ext=True)
+            x = np.asarray(c.env[rv], dtype=np.float64)
+            wv = ser.to_wire(Tensor(x))
+        except Exception:
+            ctx.count("lazy:independent:beyond-model")
+            continue
+        ans = ctx.driver.ask([f"C01 pevalInd {sx(wfn)} {sx(Q(rv))} {sx(Q(bv))} {sx(Q(dv))} {x.shape[0]} {sx(wv)}",
+                              f"C01 denote {sx(c.wire)} {sx(ser.ins_wire(c.ins))} {sx(ser.env_wire(c.env))}"])
+        try:
+            nt = nt_of_answer(ans[0])
+        except Exception:
+            ctx.infra_errors.append(f"driver pevalInd: {ans[0][:200]}")
+            continue
+        model = ser.parse_table(ans[1])
+        if nt is None:
+            ctx.count("lazy:independent:model-declined")
+            continue
+        ctx.count("lazy:independent:model-defined")
+        if model is None or any(m is None for m in model):
+            continue
+        try:
+            okp, _ = ser.tables_equal(nt_table(nt, c.ins), model)
+        except KeyError:
+            okp = False
+        if not okp:
+            ctx.infra_errors.append(f"independent_sem echo: model table != denote table: {gen_terms.describe(c.recipe)}")
+            continue
+        if c.status == "value":
+            try:
+                impl = impl_table(c, bind_env(c))
+            except Exception:
+                impl = None
+            if impl is not None:
+                ok3, _ = ser.tables_equal(impl, nt_table(nt, c.ins))
+                ctx.count("lazy:independent:three-way-" + ("equal" if ok3 else "DIFFERENT"))
+
+
 def stream_getitem_enum(ctx):
     """getitem at EVERY offset, enumerated: event shapes incl. square ones x tensors with 0-2 named inputs (sizes
     equal to event sizes) x index kind (number, fresh variable, variable that is an input of a sibling, index
@@ -890,13 +1059,16 @@ def correspond(ctx):
     n_rand, n_ext, n_lazy = (3000, 3000, 600) if quick else (30000, 30000, 6000)
     run_cases(ctx, stream_random(ctx, n_rand))
     run_cases(ctx, stream_ext(ctx, n_ext))
-    run_cases(ctx, stream_lazy(ctx, n_lazy))
+    lazy_cases = stream_lazy(ctx, n_lazy)
+    run_cases(ctx, lazy_cases)
+    run_independent_echo(ctx, lazy_cases)
     if not quick:
         run_cases(ctx, stream_exhaustive(ctx))
         ctx.extra["exhaustive_stratum"] = "all depth<=2 expressions over the fixed pool enumerated"
     run_cases(ctx, stream_bitwise(ctx, 120 if quick else 3000))
     run_cases(ctx, stream_slice_compose(ctx))
     run_cases(ctx, stream_getitem_enum(ctx))
+    run_phi(ctx, 400 if quick else 8000)
     stream_known_minmax(ctx)
     stream_known_reduce_andor(ctx)
     # fidelity percentages
@@ -907,7 +1079,9 @@ def correspond(ctx):
                 "compared": tot,
                 "inputs_order_equal_pct": round(100.0 * ctx.distribution.get(f"{st}:fidelity:inputs-order-equal", 0) / tot, 2),
                 "data_layout_equal_pct": round(100.0 * ctx.distribution.get(f"{st}:fidelity:data-layout-equal", 0) / tot, 2)}
-    ctx.assumptions.append("transcendental ops (exp, log, sigmoid, …) are outside the exact fragment of Model/Term.lean")
+    ctx.assumptions.append("transcendental ops (exp, log, sigmoid, sqrt, tanh, …) are uninterpreted scalar functions: numpy's "
+                           "function applied to Lean's exact argument table is the reference (structure proved for any φ in "
+                           "Props/C01/Phi.lean); compared to 1e-12")
     ctx.assumptions.append("and/or/xor are bitwise on integers in funsor and in the spec (compared on booleans and on small "
                            "non-boolean ints); invert, named Reduce(and_/or_) and all/any are compared on numpy-bool data only")
     ctx.assumptions.append("syntax for Lean is built under `reflect` with Reduce._alpha_convert made tolerant of reduced "
